@@ -18,6 +18,27 @@ CLAIMED = {
             "are decided structurally. This covers all interleavings' necessary conditions, which no finite set of "
             "race-detector runs can; it does not decide races in user code or value-level outcomes.",
             "DESIGN.md §4 C09"),
+    "C10": ("static analysis: must-event dataflow over the Close methods' CFGs (gate, drain, cascade), lifetime-switch case regions, who-may-call, path-sensitive ownership of cancel, typestate",
+            "Decides for every path - not the ones a test drives - that each tracked instance is routed to exactly one owner list, that both Close methods drain a snapshot completely behind a compare-and-swap gate, that failure paths of Build and scope creation dispose what they created, and that nothing else calls Close on container-held instances. Counts of Close calls over histories are not decided.",
+            "DESIGN.md §4 C10"),
+    "C11": ("static analysis: loop-shape recognition (reverse complete traversal), append-only list discipline, dominance of the child/scope cascade over the owner's disposal loop",
+            "Reverse-of-creation order rests on three structural facts that are decided on all paths: one creation-ordered list per owner that is only appended to, disposal loops that run from the last element to the first, and the cascade (children; scopes then root scope) completing before the owner's own loop. The resulting order over all DAGs is not decided.",
+            "DESIGN.md §4 C11"),
+    "C12": ("static analysis: CAS-gate dominance, error-accumulation dataflow in the Close methods, result-shape check on branch edges",
+            "Completeness under errors and idempotence are decided as path properties of the two Close methods: the gate dominates every effect, no Close() error causes an exit or is dropped, every phase is on every path past the gate, and the DisposalError is returned exactly on the non-empty edge.",
+            "DESIGN.md §4 C12"),
+    "C13": ("static analysis: entry-check dominance (R-ENTRY) for the 8 API methods, cascade completeness, typestate of tables reset by Close, reaching-definition check of the watcher's context",
+            "Every entry method's disposed check dominating all effects, the right sentinel on its set edge, the cascade on every path of Close, re-checks inside the critical sections that overlap Close, and the one-watcher-per-scope wiring are decided for all paths.",
+            "DESIGN.md §4 C13"),
+    "C14": ("static analysis: must-pass-through of cancel / table deletions / resets in scope.Close with nil-guard edge facts, insertion-deletion pairing, path-sensitive ownership of the cancel func",
+            "Release of everything held for a scope is decided as must-pass-through obligations on every path past the gate, and as an ownership obligation on every path from WithCancel to a return (including failing initializers). Heap reachability and boundedness are not decided.",
+            "DESIGN.md §4 C14"),
+    "C15": ("static analysis: error-chain lints resolved through go/types (Unwrap exhaustiveness, %w, sentinel use, cause preservation), recover dominance, commit-after-validate dataflow, nil-argument dominance, panic/type-assertion census",
+            "Classifiability of failures is decided as repository-wide structural rules over every error construction site and every exit of the resolution path; 'not cached' as the absence of any state recorded before a constructor succeeded.",
+            "DESIGN.md §4 C15"),
+    "C20": ("static analysis: shape and sibling-agreement checks of NewModule / AddModules / the five module options",
+            "Transparency of modules follows from thinness, which is decided exactly: one forward loop over the given builders, nil skipped, first error returned (wrapped exactly once with the module's own name), the caller's slice never written, each option a single forwarded call.",
+            "DESIGN.md §4 C20"),
 }
 
 PENDING_REASON = "rules for this property are not built yet in this revision of /verif (see DESIGN.md §8); not claimed until they run"
